@@ -60,6 +60,9 @@ type c03H3Scenario struct {
 	frames   int    // DATA frames
 	ending   string // fin | reset | conn-close | midframe-fin | midframe-reset | close-before-headers
 	complete bool
+	code     uint64 // stream reset / connection close error code
+	status   int    // response status (0 = 200)
+	head     bool   // the client sends HEAD
 }
 
 type c03H3Peer struct {
@@ -153,13 +156,20 @@ func (p *c03H3Peer) serveStream(conn quic.Connection, str quic.Stream) {
 		return
 	}
 	sc := p.next()
+	if sc.code == 0 {
+		sc.code = 0x102
+	}
 	if sc.ending == "close-before-headers" {
-		str.CancelWrite(quic.StreamErrorCode(0x102))
+		str.CancelWrite(quic.StreamErrorCode(sc.code))
 		return
 	}
 	var hb bytes.Buffer
 	enc := qpack.NewEncoder(&hb)
-	enc.WriteField(qpack.HeaderField{Name: ":status", Value: "200"})
+	st := sc.status
+	if st == 0 {
+		st = 200
+	}
+	enc.WriteField(qpack.HeaderField{Name: ":status", Value: strconv.Itoa(st)})
 	enc.WriteField(qpack.HeaderField{Name: "content-type", Value: "application/octet-stream"})
 	if sc.declared >= 0 {
 		enc.WriteField(qpack.HeaderField{Name: "content-length", Value: strconv.Itoa(sc.declared)})
@@ -195,18 +205,18 @@ func (p *c03H3Peer) serveStream(conn quic.Connection, str quic.Stream) {
 		str.Close()
 	case "reset", "midframe-reset":
 		time.Sleep(5 * time.Millisecond) // let the bytes go out before the reset overtakes them
-		str.CancelWrite(quic.StreamErrorCode(0x102))
+		str.CancelWrite(quic.StreamErrorCode(sc.code))
 	case "conn-close":
 		time.Sleep(5 * time.Millisecond)
-		conn.CloseWithError(0x102, "scripted close")
+		conn.CloseWithError(quic.ApplicationErrorCode(sc.code), "scripted close")
 	}
 }
 
 func TestVerif_C03_h3cut(t *testing.T) {
 	s := verifh.New(t, "C03", "h3cut",
 		"real client forced to HTTP/3 against a frame-script peer on raw quic-go streams: response HEADERS with/without content-length, body in 1-4 DATA frames, ended after a strict prefix of the body "+
-			"by stream FIN / stream reset / connection close, or inside a DATA frame (FIN or reset), or with more DATA than declared, or reset before HEADERS; complete responses as controls; "+
-			"then a second request on the same client. Oracle: success implies a complete consistent response and the true body; the second request succeeds. "+
+			"(or right after HEADERS) by stream FIN / stream reset with every code 0x100..0x110 (incl. H3_NO_ERROR, request rejected/cancelled) / connection close (H3_NO_ERROR or error), or inside a DATA frame (FIN or reset), or with more DATA than declared, or reset before HEADERS; complete responses as controls; "+
+			"first request under a caller mode (auto, streaming, body transformer, SetOutput, SetOutputFile, download callback, dump, non-matching retry); then a second request on the same client. Oracle: success implies a complete consistent response and the true body; the second request succeeds. "+
 			"classes (known findings): h3-fin-truncated = clean FIN before the declared length or inside a DATA frame reported as success; "+
 			"h3-closed-conn-reuse = the request after a connection close fails on the dead cached connection. non-trivial = fault injected")
 	r := s.Rand()
@@ -224,6 +234,8 @@ func TestVerif_C03_h3cut(t *testing.T) {
 	reached := map[string]int{}
 	knownSeen := map[string]int{}
 	failures := 0
+	rstSeq := 0
+	tmpDir := t.TempDir()
 	for i := 0; i < n && failures < 12; i++ {
 		body := verifh.RandBytes(r, 1+r.Intn(300), "abcdefghijklmnopqrstuvwxyz")
 		sc := c03H3Scenario{body: body, declared: len(body), send: len(body), frames: 1 + r.Intn(4), ending: "fin", complete: true}
@@ -231,40 +243,77 @@ func TestVerif_C03_h3cut(t *testing.T) {
 			sc.declared = -1
 		}
 		class := ""
-		switch r.Intn(10) {
+		cutAt := func() int {
+			if r.Intn(3) == 0 {
+				return 0 // right after HEADERS
+			}
+			return r.Intn(len(body))
+		}
+		// H3_NO_ERROR 0x100 … H3_VERSION_FALLBACK 0x110 (0x10b request rejected, 0x10c request cancelled)
+		h3Codes := []uint64{0x100, 0x101, 0x102, 0x103, 0x104, 0x105, 0x106, 0x107, 0x108, 0x109, 0x10a, 0x10b, 0x10c, 0x10d, 0x10e, 0x10f, 0x110}
+		switch r.Intn(12) {
 		case 0, 1:
 			sc.name = "complete"
+			// controls without a body although a length is declared: HEAD, 204, 304
+			switch r.Intn(4) {
+			case 0:
+				sc.name, sc.head, sc.declared, sc.send = "complete-head-with-length", true, len(body), 0
+			case 1:
+				sc.name, sc.status, sc.declared, sc.send = "complete-304-with-length", 304, len(body), 0
+			}
 		case 2: // FIN before the declared length
-			sc.name, sc.declared, sc.send, sc.complete = "short-fin", len(body), r.Intn(len(body)), false
-		case 3:
-			sc.name, sc.ending, sc.send, sc.complete = "reset", "reset", r.Intn(len(body)), false
-		case 4:
-			sc.name, sc.ending, sc.send, sc.complete = "conn-close", "conn-close", r.Intn(len(body)), false
-		case 5:
+			sc.name, sc.declared, sc.send, sc.complete = "short-fin", len(body), cutAt(), false
+		case 3, 4, 5: // stream reset with every HTTP/3 error code, incl. H3_NO_ERROR, mid-body or after HEADERS only
+			sc.ending, sc.send, sc.complete, sc.code = "reset", cutAt(), false, h3Codes[rstSeq%len(h3Codes)]
+			rstSeq++
+			if rstSeq%3 == 0 {
+				sc.code = 0x100
+			}
+			sc.name = fmt.Sprintf("reset-code-%x", sc.code)
+		case 6: // connection close, H3_NO_ERROR or an error
+			sc.ending, sc.send, sc.complete, sc.code = "conn-close", cutAt(), false, []uint64{0x100, 0x102}[rstSeq%2]
+			sc.name = fmt.Sprintf("conn-close-code-%x", sc.code)
+		case 7:
 			sc.name, sc.ending, sc.complete = "midframe-fin", "midframe-fin", false
 			if len(body) < 2 {
 				sc.name, sc.ending, sc.complete = "complete", "fin", true
 			}
-		case 6:
-			sc.name, sc.ending, sc.complete = "midframe-reset", "midframe-reset", false
+		case 8:
+			sc.name, sc.ending, sc.complete, sc.code = "midframe-reset", "midframe-reset", false, []uint64{0x100, 0x10c}[rstSeq%2]
 			if len(body) < 2 {
 				sc.name, sc.ending, sc.complete = "complete", "fin", true
 			}
-		case 7:
+		case 9:
 			sc.name, sc.declared, sc.extra, sc.complete = "overlong", len(body), 1+r.Intn(20), false
-		case 8:
-			sc.name, sc.ending, sc.complete = "close-before-headers", "close-before-headers", false
-		case 9: // full body, but the stream is reset instead of finished
-			sc.name, sc.ending, sc.complete = "reset-after-full-body", "reset", false
+		case 10:
+			sc.name, sc.ending, sc.complete, sc.code = "close-before-headers", "close-before-headers", false, []uint64{0x100, 0x10b, 0x10c}[rstSeq%3]
+		case 11: // full body, but the stream is reset (also with H3_NO_ERROR) instead of finished
+			sc.name, sc.ending, sc.complete, sc.code = "reset-after-full-body", "reset", false, []uint64{0x100, 0x102}[rstSeq%2]
 		}
 		peer.mu.Lock()
 		peer.queue = []c03H3Scenario{sc}
 		peer.mu.Unlock()
+		method := "GET"
+		if sc.head {
+			method = "HEAD"
+		}
+		want := body
+		if sc.head || sc.status == 304 {
+			want = ""
+		}
 		c := mk()
-		stream := r.Intn(3) == 0
+		stream := r.Intn(4) == 0
+		cc := &c03Caller{mode: c03PickMode(r, "", "", 0), dir: tmpDir}
 		if stream {
 			c.DisableAutoReadResponse()
+		} else {
+			cc.prepClient(c)
 		}
+		callerName := cc.name()
+		if stream {
+			callerName = "stream"
+		}
+		s.Count("caller:" + callerName)
 		type out struct {
 			first, ferr string
 			secondOK    bool
@@ -273,25 +322,7 @@ func TestVerif_C03_h3cut(t *testing.T) {
 		ch := make(chan out, 1)
 		go func() {
 			var o out
-			o.first = "fail"
-			resp, err := c.R().Get(url)
-			if err == nil && resp != nil && resp.Response != nil {
-				if stream {
-					b, rerr := io.ReadAll(resp.Body)
-					resp.Body.Close()
-					if rerr == nil {
-						o.first = "ok body=" + string(b)
-					} else {
-						o.ferr = "body read: " + rerr.Error()
-					}
-				} else if resp.Err == nil {
-					o.first = "ok body=" + string(resp.Bytes())
-				} else {
-					o.ferr = resp.Err.Error()
-				}
-			} else if err != nil {
-				o.ferr = err.Error()
-			}
+			o.first, o.ferr = c03DoFirstM(c, method, url, stream, cc)
 			second, err2 := c.R().Get(url)
 			if err2 == nil && second != nil && second.Response != nil {
 				if stream {
@@ -322,7 +353,7 @@ func TestVerif_C03_h3cut(t *testing.T) {
 		case strings.HasPrefix(o.first, "ok"):
 			if !sc.complete {
 				ok, why = false, "incomplete/inconsistent HTTP/3 response reported as success: "+c04Short(o.first)
-			} else if o.first != "ok body="+body {
+			} else if o.first != "ok body="+want {
 				ok, why = false, "body differs from the true body"
 			}
 			reached["ok"]++
@@ -337,7 +368,7 @@ func TestVerif_C03_h3cut(t *testing.T) {
 		}
 		if ok && !o.secondOK {
 			ok, why = false, "second request on the same client failed: "+o.serr
-			if sc.name == "conn-close" {
+			if strings.HasPrefix(sc.name, "conn-close") {
 				class = "h3-closed-conn-reuse"
 			}
 		}
@@ -346,8 +377,8 @@ func TestVerif_C03_h3cut(t *testing.T) {
 		}
 		reached[sc.name]++
 		s.Count("scenario:" + sc.name)
-		human := fmt.Sprintf("h3 %s declared=%d body=%d sent=%d extra=%d frames=%d stream-caller=%v -> %s (%s) second-ok=%v",
-			sc.name, sc.declared, len(body), sc.send, sc.extra, sc.frames, stream, c04Short(o.first), o.ferr, o.secondOK)
+		human := fmt.Sprintf("h3 %s declared=%d body=%d sent=%d extra=%d frames=%d caller=%s -> %s (%s) second-ok=%v",
+			sc.name, sc.declared, len(body), sc.send, sc.extra, sc.frames, callerName, c04Short(o.first), o.ferr, o.secondOK)
 		if why != "" {
 			human += " ORACLE: " + why
 		}
@@ -365,7 +396,7 @@ func TestVerif_C03_h3cut(t *testing.T) {
 	if failures >= 12 {
 		return
 	}
-	for _, need := range []string{"ok", "fail", "complete", "short-fin", "reset", "conn-close", "midframe-fin", "overlong", "close-before-headers"} {
+	for _, need := range []string{"ok", "fail", "complete", "complete-head-with-length", "complete-304-with-length", "short-fin", "reset-code-100", "reset-code-10b", "reset-code-10c", "conn-close-code-100", "conn-close-code-102", "midframe-fin", "overlong", "close-before-headers", "reset-after-full-body"} {
 		if reached[need] == 0 {
 			t.Errorf("C03/h3cut never reached %q", need)
 		}
